@@ -48,7 +48,7 @@ def run_case(cs):
     rng = cs.rng
     tree = world.gen_tree(rng, max_files=rng.choice([1, 4, 9]), max_dirs=rng.choice([0, 2, 4]), min_files=0)
     d = cs.dir()
-    root = os.path.join(d, "R")
+    root = os.path.join(d, world.root_name(rng))
     world.write_tree(root, tree)
     os.makedirs(root, exist_ok=True)
     subdirs = [x for x in tree if tree[x] is None]
